@@ -9,7 +9,8 @@ pub fn judge(scn: &Scenario, p: &Plan, l: &RunLog) -> Vec<oracles::Finding> {
     if oracles::plan_is_fair_lossy(p) {
         v.extend(oracles::progress(scn, l));
     }
-    if p.is_empty() {
+    // a size-blackholing path is not "loss-free": the promptness clause does not apply there
+    if p.is_empty() && scn.blackhole_above.is_none() && scn.emsgsize_above.is_none() {
         v.extend(oracles::promptness(scn, l));
     }
     v.extend(oracles::fin_emitted(scn, l));
@@ -46,6 +47,29 @@ pub fn run(ctx: &Ctx) -> Outcome {
         out.violations.extend(findings_to_violations(scn, &r.findings, &judge));
         out.parts.push(p);
     }
+    // progress on size-blackholing paths (MTU probing active): the fault-free plan and every single drop
+    for (bh, em, retx) in [(Some(600usize), None, 1usize), (Some(600), None, 0), (None, Some(620usize), 1), (None, None, 1)] {
+        let mut scn = lib::mtu_transfer(700, bh, em, 12_000, false);
+        scn.a.probe_retx = retx;
+        scn.a.inactivity_ms = 30_000;
+        scn.b.inactivity_ms = 30_000;
+        scn.horizon_s = 20;
+        scn.name = format!("{}-retx{}", scn.name, retx);
+        let cfg = ExploreCfg { max_dev: 1, min_k: 2, fates: vec![crate::duo::sim::Fate::Drop], eligible: &always, judge: &judge, max_runs: ctx.tier.pick(5_000, 100_000) };
+        let r = explore(ctx, &scn, &cfg);
+        let mut p = Part::fe(&format!("duo:{}", scn.name));
+        p.evaluations = r.runs;
+        p.distinct_nontrivial = r.distinct_traces;
+        p.distinct_outcomes = r.outcome_classes.len() as u64;
+        p.bound = format!("12 kB over a probing path, all plans with <= {} dropped datagram; per level {:?}", r.completed_bound, r.per_level);
+        if let Some(c) = &r.capped {
+            p.caps_hit.push(c.clone());
+            p.exhaustive = false;
+        }
+        p.samples.push(json!({"scenario": scn.name, "plan": []}));
+        out.violations.extend(findings_to_violations(&scn, &r.findings, &judge));
+        out.parts.push(p);
+    }
     // clause 3: wake-ups / immediacy / no deadlock, in every state of the flow and close drivers (solo)
     {
         use super::solo_drivers::*;
@@ -55,6 +79,7 @@ pub fn run(ctx: &Ctx) -> Outcome {
         run_and_report(ctx, &rx(ctx.tier, 2, vec![MSS], d), &mut out);
         run_and_report(ctx, &rx(ctx.tier, 4, vec![1, MSS], d), &mut out);
         run_and_report(ctx, &close(ctx.tier, d), &mut out);
+        run_and_report(ctx, &rx_halfclosed(ctx.tier, d), &mut out);
         run_and_report(ctx, &mtu(ctx.tier, 700, None, None, 1, ctx.tier.pick(5, 7)), &mut out);
     }
     out.rule = "C02: every plan of <= d drop/dup/delay deviations (d below the retransmission limit, hence fair) must complete within the horizon; loss-free runs additionally satisfy the promptness clause".into();
